@@ -37,13 +37,22 @@ def site_of(d):
         return "add_space_dimensions_and_project:zero-dim-universe"
     if k == "crash" and op == "addgens" and g("tgt_em") == "0" and g("tgt_gu") == "0" and g("ref_empty_before") == "1":
         return "add_grid_generators:empty-not-marked,update_generators-result-ignored"
-    if k == "result" and op == "addgens" and g("tgt_dim") == "0" and g("expected") == "exn_invalid_argument" and g("got") == "ok":
-        return "add_grid_generators:zero-dim-empty,no-point-accepted"
     if op == "rmhigher" and k in ("crash", "state", "ok") and g("tgt_em") == "0" and g("tgt_gu") == "1" and g("tgt_gm") == "1":
         return "remove_higher_space_dimensions:minimized-generators-branch"
     if (k == "result" and op == "q" and g("what") == "is_universe" and g("got") == "bool_1" and g("tgt_cu") == "1"
             and g("tgt_cm") == "0" and g("ref_empty_before") == "1"):
         return "is_universe:unminimized-congruences,origin-not-tested"
+    if k == "result" and op == "freq" and g("why") == "value-not-closest-to-zero":
+        return "frequency:value-reduced-by-truncating-remainder"
+    if k == "result" and op == "freq" and g("tgt_dim") == "0" and g("why") == "value-not-attained" and g("expr_b_zero") == "0":
+        return "frequency:zero-dim-ignores-inhomogeneous-term"
+    if op == "gpreimage" and k == "state" and g("gp_branch") == "invertible-scaled":
+        return "generalized_affine_preimage:invertible-branch,parameter-not-scaled"
+    if (k == "result" and op == "relgen" and g("expected") == "bool_0" and g("got") == "bool_1" and g("tgt_em") == "0"
+            and g("ref_empty_before") == "1" and g("gen_kind") in ("q", "l")):
+        return "relation_with(grid_generator):empty-not-marked"
+    if op == "diff" and k == "state" and (g("div_ne1") == "1" or g("tgt_pbp") == "1"):
+        return "difference_assign:consequence-of-relation_with(cg)-defects"
     if k == "ok" and g("obj_em") == "0" and g("obj_cu") == "0" and g("obj_gu") == "1" and g("obj_gm") == "0":
         return "OK()-false-after-update_congruences-from-unminimized-generators"
     return "-"
@@ -123,11 +132,14 @@ def minimise(chk, hx, judge, ctext, want):
 
 
 def run(chk):
-    chk.rule = ("histories over a pool of 4 Grid objects (dimension 0-3; 4 constructions then 4-12 operations drawn from "
+    chk.rule = ("two streams of histories over a pool of 4 Grid objects: dense (dimension 0-3, 4 constructions then 4-12 operations) and "
+                "sparse (dimension 4-6, vectors touching 1-2 coordinates, 30% 'gappy' generator systems with a line/parameter "
+                "overlapping a later parameter column across >= 2 virtual dimensions); operations drawn from "
                 "add_congruence(s), refine_with_congruence, add_grid_generator(s), intersection_assign, upper_bound_assign, "
                 "affine_image, affine_preimage, add_space_dimensions_and_embed/project, remove_higher_space_dimensions, copy "
                 "construction, assignment, swap, the four description observers, OK(), is_empty, is_universe, is_discrete, "
-                "is_bounded, contains, strictly_contains, is_disjoint_from, ==, relation_with(Congruence)); congruence moduli "
+                "is_bounded, contains, strictly_contains, is_disjoint_from, ==, relation_with(Congruence), relation_with(Grid_Generator), "
+                "frequency, unconstrain, time_elapse_assign, difference_assign, generalized_affine_image/preimage (var, relsym, expr, d, modulus)); congruence moduli "
                 "in {0,1,2,3,4,6}, coefficients in [-4,4], generator divisors in {1,2,3}; after EVERY step the four descriptions "
                 "reported by every pool object are compared with the reference through the verified engine. evaluations = "
                 "individual comparisons made by the judge; a history is distinct by its text and non-trivial when at least 3 of "
@@ -141,7 +153,9 @@ def run(chk):
     chk.assumptions += ["correspondence is by differential execution on generated histories (not a proof about the C++ code)",
                         "a negative answer of gens_incl caused by a LINE of the left grid is not yet backed by a theorem "
                         "(positive answers, and negative answers caused by points/parameters, are)",
-                        "saturates() of relation_with is compared only for space dimension > 0"]
+                        "saturates() of relation_with is compared only for space dimension > 0",
+                        "the reference for difference_assign is glue over verified functions, not a theorem; reference unconstrain, "
+                        "time_elapse, generalized image/preimage and subsumes are executable Coq definitions without spec theorems"]
     chk.prove(COQ_FILES)
     common.coq_extract("Extract_grid.v", ["grid.ml", "grid.mli"], deps=COQ_FILES + ["Extract/Extract_grid.v"])
     judge = common.ocaml_build("judge_grid", ["gen/grid.mli", "gen/grid.ml", "judge_grid.ml"])
@@ -188,6 +202,14 @@ def _run_histories(chk, hx, judge):
         while k < target:
             txt = "".join(gen_grid.history(r, "g%d" % (k + i), maxdim=3) for i in range(min(per, target - k)))
             batches.append(("gen%d" % k, txt))
+            k += per
+        # second stream: sparse higher-dimensional histories (dimension 4-6, vectors touching 1-2 coordinates)
+        r2 = random.Random(chk.seed * 104729 + 11)
+        target2 = 900 if chk.quick else 9000
+        k = 0
+        while k < target2:
+            txt = "".join(gen_grid.history(r2, "s%d" % (k + i), maxdim=6, sparse=True) for i in range(min(per, target2 - k)))
+            batches.append(("sparse%d" % k, txt))
             k += per
 
     hist = {}
